@@ -128,7 +128,7 @@ static size_t run_legacy_api(Sess* s, const Plan* p, ZSTD_CCtx* c) {
     for (i = 0; i <= p->nops; i++) {
         size_t in_len, out_cap; int dir; long rep, k;
         if (i < p->nops) { const PlanOp* o = &p->ops[i]; if (strcmp(o->kind, "cs")) continue; in_len = o->a[0] < 0 ? 0 : (size_t)o->a[0]; out_cap = o->a[1] < 0 ? 0 : (size_t)o->a[1]; dir = (int)o->a[2]; rep = o->a[3] < 1 ? 1 : o->a[3] > 100000 ? 100000 : (long)o->a[3]; }
-        else { in_len = s->in_size; out_cap = fin_out; dir = 2; rep = 1000000; if (s->in_pos == s->in_size && s->nframes > 0 && !frame_open) break; }
+        else { in_len = s->in_size; out_cap = fin_out; dir = 2; rep = 2000000000L; if (s->in_pos == s->in_size && s->nframes > 0 && !frame_open) break; }
         if (out_cap > ((size_t)1 << 26)) out_cap = (size_t)1 << 26;
         for (k = 0; k < rep; k++) {
             uint8_t* src; uint8_t* dst; ZSTD_inBuffer in; ZSTD_outBuffer out; size_t r; size_t n = in_len; const char* e;
@@ -161,7 +161,7 @@ static size_t run_legacy_api(Sess* s, const Plan* p, ZSTD_CCtx* c) {
             }
             if (i == p->nops && !frame_open && s->in_pos == s->in_size) break;   /* final stage: stop once the last frame is closed */
             if (s->in_pos == s->in_size && dir == 0 && k > 3) break;
-            if (++guard > 3000000) sim_violation("livelock", "legacy streaming history too long");
+            if (++guard > 60000000) sim_violation("livelock", "legacy streaming history too long");
         }
     }
     return 0;
